@@ -230,6 +230,7 @@ def plan(tier: str) -> List[Tuple[str, Dict[str, Any], int]]:
             ("unregister", {"browse_at": 5000, "multi": True}, 2), ("unregister", {"browse_at": 0, "multi": True}, 1),
             ("update-close", {"browse_at": 0}, 2), ("update-close", {"browse_at": 1200, "late": True}, 2),
             ("update-close", {"browse_at": 5000, "late": True}, 3),
+            ("update-close", {"browse_at": 20500, "late": True}, 2),  # the browsing host joins after the update
             ("three", {"browse_at": 500}, 2), ("three", {"browse_at": 6000, "late": True}, 2),
             ("churn", {"update_at": 19500, "browse_at": 400, "unregister_after": 1500, "late": True}, 2),
             ("churn", {"update_at": 19500, "browse_at": 100, "unregister_after": 1150, "late": True}, 2),
